@@ -92,6 +92,12 @@ void Logger::processMessage(QtMsgType type, const QMessageLogContext &context,
 
     LogMessage lmsg(type, context, message);
     process(lmsg);
+
+    // Qt aborts the process as soon as the handler returns for a fatal message: write out
+    // whatever the sinks still hold in their buffers
+    if (type == QtFatalMsg) {
+        flush();
+    }
 }
 
 QTLOGGER_DECL_SPEC
